@@ -1,5 +1,6 @@
 import Tmv.Lemmas.BlockSync
 import Tmv.Lemmas.BlockSyncHandover
+import Tmv.Model.BlockSyncV2
 /-! # C13 — Block sync applies only the canonical chain, whatever peers send
 Property theorems about the model `Tmv.BlockSync` of blockchain/v0 (pool.go, reactor.go
 `poolRoutine`), `VerifyCommitLight`/`VerifyCommit`, `validateBlock` and the hand-over
@@ -211,6 +212,78 @@ theorem reaches_tip_with_one_honest_partial (n : Node) (first second : Block)
   | nil => exact absurd hq hne
   | cons a l => exact ⟨_, rfl, rfl, rfl, rfl⟩
 
+/-! ### blockchain/v2 processor -/
+
+/-- what the v2 processor maintains: the store is a justified chain ending in the context's
+state, or the processor has panicked in `applyBlock` right after saving a block that has the
+quorum but fails `validateBlock` (v2 saves before it validates) -/
+def V2Inv (st0 : St) (p : V2.Pc) : Prop :=
+  StoreOK sigOK st0 p.store p.st ∨
+    (p.dead = true ∧ ∃ b c rest, p.store = (b, c) :: rest ∧ StoreOK sigOK st0 rest p.st ∧
+      Quorum sigOK p.st.vals b.id b.height c ∧ validate sigOK p.st b ≠ .ok ())
+
+theorem v2_handle_inv (st0 : St) (p : V2.Pc) (e : V2.Ev) (hd : p.dead = false)
+    (h : StoreOK sigOK st0 p.store p.st) : V2Inv sigOK st0 (p.handle sigOK e).1 := by
+  cases e with
+  | scFinished => simp only [V2.Pc.handle]; split <;> exact Or.inl h
+  | peerError id => exact Or.inl h
+  | blockReceived id b =>
+    cases b with
+    | none => exact Or.inl h
+    | some b =>
+      simp only [V2.Pc.handle]
+      split
+      · split <;> exact Or.inl h
+      · exact Or.inl h
+  | processBlock =>
+    simp only [V2.Pc.handle]
+    cases h1 : p.get? (p.st.lastHeight + 1) with
+    | none => simp only; split <;> exact Or.inl h
+    | some fi =>
+      cases h2 : p.get? (p.st.lastHeight + 2) with
+      | none => simp only; split <;> exact Or.inl h
+      | some se =>
+        simp only
+        cases hv : verifyCommitLight sigOK p.st.vals fi.block.id fi.block.height se.block.lastCommit with
+        | error e =>
+          simp only [V2.Pc.purge]
+          split <;> exact Or.inl h
+        | ok u =>
+          have hq := verifyCommitLight_quorum sigOK p.st.vals fi.block.id fi.block.height
+            se.block.lastCommit (by cases u; exact hv)
+          simp only
+          cases hval : validate sigOK p.st fi.block with
+          | error e =>
+            refine Or.inr ⟨rfl, _, _, _, rfl, h, hq, ?_⟩
+            rw [hval]; simp
+          | ok u2 =>
+            exact Or.inl (StoreOK.cons h hq (by cases u2; exact hval))
+
+/-- **saved_is_canonical for blockchain/v2.** Whatever events the scheduler feeds the processor
+(any blocks from any peers, peer errors, in any order): every block in the store came with a
+commit carrying valid signatures of more than 2/3 of the validator set the processor's state
+prescribed for its height, for exactly its id; every block that was EXECUTED passed
+`validateBlock`. The only stored-but-not-validated block is the last one of a processor that
+has panicked on it (see `v2_saves_before_validating`). -/
+theorem v2_saved_is_canonical (st0 : St) (es : List V2.Ev) :
+    V2Inv sigOK st0 ((V2.Pc.new st0).run sigOK es) := by
+  suffices ∀ (p : V2.Pc), V2Inv sigOK st0 p → V2Inv sigOK st0 (p.run sigOK es) from
+    this (V2.Pc.new st0) (Or.inl (by simpa [V2.Pc.new] using StoreOK.nil))
+  induction es with
+  | nil => intro p h; exact h
+  | cons e rest ih =>
+    intro p h
+    simp only [V2.Pc.run, List.foldl_cons]
+    apply ih
+    unfold V2.Pc.step
+    by_cases hd : p.dead = true
+    · simp only [hd, if_true]; exact h
+    · have hd' : p.dead = false := by simpa using hd
+      simp only [hd', Bool.false_eq_true, if_false]
+      rcases h with h | ⟨hdead, _⟩
+      · exact v2_handle_inv sigOK st0 p e hd' h
+      · rw [hd'] at hdead; cases hdead
+
 /-! ### hand-over -/
 
 /-- the newest stored block is the state's last block and its seen commit has the quorum of the
@@ -289,7 +362,7 @@ theorem handover_clean_iff (st0 : St) (h0 : st0.lastHeight = 0) (ops : List Op)
     · intro h
       by_cases hr : reconstruct sigOK n.st n.store = .ok
       · exact key.mp hr
-      · simp only [hr, if_false] at h; exact absurd h hr
+      · simp only [hr, if_false] at h
     · intro hc
       have hr := key.mpr hc
       simp [hr]
